@@ -79,3 +79,37 @@ Definition k_al (tab : list (Z * Z * list Z * list (list (list Z))))
                 (cells : list (list Z * list (Z * Z * Z * list Z)))
                 (calls : list (Z * Z * list Z * list (Z * Z * Z * list Z))) : list Z :=
   k_alists tab cells ++ [-9] ++ k_emit_values calls.
+
+(* ---- the cells the lowering models choose, on operands made of distinct nets (signals) or constants ---- *)
+Definition opd_nets (base : nat) (w : Z) (cst : option Z) : list net :=
+  match cst with
+  | None => map (fun i => NV (base + i)) (seq 0 (Z.to_nat w))
+  | Some v => map (fun i => NC (Z.testbit v (Z.of_nat i))) (seq 0 (Z.to_nat w))
+  end.
+
+(* one entry: operand a (width, signed, constant?) and operand b; the descriptor of the cell emitted for `a o b` *)
+Definition k_cell2 (o : op2) (entries : list (Z * bool * option Z * (Z * bool * option Z))) : list Z :=
+  flat_map (fun e =>
+    let '(wa, sa, ca, (wb, sb, cb)) := e in
+    let '(n, a', b') := ir_op2 o (opd_nets 0 wa ca) sa (opd_nets 100 wb cb) sb in
+    cell_desc2 n a' b' ++ [-5]) entries.
+
+Definition k_cell1 (o : op1) (entries : list (Z * bool * option Z)) : list Z :=
+  flat_map (fun e =>
+    let '(wa, sa, ca) := e in
+    let a := opd_nets 0 wa ca in
+    (match o with
+     | ONeg => cell_desc1 N1Neg (extend a sa (nlen a + 1))
+     | ONot => cell_desc1 N1Not a
+     | OBool => cell_desc1 N1Bool a
+     | ORor => cell_desc1 N1Ror a
+     | ORand => cell_desc1 N1Rand a
+     | ORxor => cell_desc1 N1Rxor a
+     | OU | OS => []
+     end) ++ [-5]) entries.
+
+(* part-select: value (width, signed), offset width, result width, stride *)
+Definition k_cellpart (entries : list (Z * bool * Z * Z * Z)) : list Z :=
+  flat_map (fun e =>
+    let '(wv, sv, wo, w, st) := e in
+    part_desc (opd_nets 0 wv None) sv (opd_nets 100 wo None) w st ++ [-5]) entries.
